@@ -115,6 +115,14 @@ func buildGen(c GenCase) (m modeling.Mesh, ok bool) {
 		cb := primitives.Cube{Width: F[0], Height: F[1], Depth: F[2]}
 		if B[0] {
 			cb.UVs = primitives.DefaultCubeUVs()
+			if B[1] { // a partial table: any subset of the six faces (every field of CubeUVs is optional)
+				mask := I[0] % 64
+				for i, f := range []**primitives.StripUVs{&cb.UVs.Top, &cb.UVs.Bottom, &cb.UVs.Left, &cb.UVs.Right, &cb.UVs.Front, &cb.UVs.Back} {
+					if mask&(1<<i) == 0 {
+						*f = nil
+					}
+				}
+			}
 		}
 		if c.Kind == "cubeW" {
 			return cb.Welded(), true
@@ -434,6 +442,11 @@ func smallGrid() []GenCase {
 				}
 				out = append(out, GenCase{Kind: kind, I: []int{2, 3, s}, F: F, B: []bool{mask&1 != 0, mask&2 != 0, mask&4 != 0, mask&8 != 0, mask&16 != 0}})
 			}
+		}
+	}
+	for _, kind := range []string{"cubeW", "cubeQ"} {
+		for mask := 0; mask < 64; mask++ {
+			out = append(out, GenCase{Kind: kind, I: []int{mask, 3, 3}, F: F, B: []bool{true, true}})
 		}
 	}
 	return out
